@@ -144,6 +144,19 @@ CHECKS = {
         "fault enumeration over file states + counting-iterator, descriptor and shape monitors",
         "4/C07",
     ),
+    "C13": (
+        "exploration",
+        "dump side: dump_many of generated frame sequences (1..50 frames; list, generator, generator raising at frame k) for the 4 "
+        "trajectory writers runs under a write proxy and an iterator proxy; the merged event log (pull(i) / open / write / close) "
+        "is checked offline: each item pulled exactly once, in order, frame j-1 written before frame j is pulled, nothing pulled "
+        "after the iterable's error, close last; the file is read back and every frame compared with its single-frame save+reload. "
+        "load side: multi-frame files from the independent spec writers for the 7 load_many formats: every frame vs the model, "
+        "first frame vs load_one, truncation at EVERY line (yielded frames must be correct; a wrong/partial one only with warning "
+        "or error; no complete frame dropped without error), garbage in a numeric field and broken/inflated count of frame k for "
+        "every k (exactly k correct frames, then LoadError).",
+        "offline checker over recorded pull/write event logs + enumeration of crash points and per-frame corruptions",
+        "4/C13",
+    ),
 }
 
 NOT_YET = "check not built yet (work in progress; see DESIGN.md section 5b)"
